@@ -201,6 +201,9 @@ def run_axis(case):
         newlabels = [list(l) for l in labels]
         newlabels[ax] = list(new)
         compare(res, dims, newlabels, exp, what, sig)
+        if not (any(missing) and method is None):
+            # "needs no fill": nothing is filled, so the data are handed through as they are (integers stay integers)
+            check(res.values.dtype == a.values.dtype, "dtype-changed-without-fill", {"what": what, "got": str(res.values.dtype), "source": str(a.values.dtype)}, sig)
         if any(missing) and method is None and case["fill"] == "nan" and spec["vk"] == "i":
             check(res.values.dtype.kind == "f", "int-not-promoted-to-float", {"what": what, "dtype": str(res.values.dtype)}, sig)
             cl.add("fill:nan-into-int")
